@@ -151,14 +151,31 @@ class ClassInfo:
         return f'{self.module.relpath}:{self.node.lineno}'
 
     def mro(self) -> List['ClassInfo']:
-        # C3 is overkill: the package only uses single inheritance; verified here.
-        out = [self]
-        cur = self
-        while cur.bases:
-            if len(cur.bases) > 1:
-                raise AnalysisError('PM', f'multiple inheritance in {cur.name} not modelled')
-            cur = cur.bases[0]
-            out.append(cur)
+        """C3 linearisation over the classes of the package (external bases are not part of it)"""
+        cached = getattr(self, '_mro_cache', None)
+        if cached is not None:
+            return list(cached)
+        if not self.bases:
+            out = [self]
+        elif len(self.bases) == 1:
+            out = [self] + self.bases[0].mro()
+        else:
+            seqs = [b.mro() for b in self.bases] + [list(self.bases)]
+            out = [self]
+            while any(seqs):
+                seqs = [q for q in seqs if q]
+                for q in seqs:
+                    cand = q[0]
+                    if not any(cand in other[1:] for other in seqs):
+                        break
+                else:
+                    raise AnalysisError('PM', f'inconsistent class hierarchy at {self.name}')
+                out.append(cand)
+                seqs = [[x for x in q if x is not cand] for q in seqs]
+        try:
+            object.__setattr__(self, '_mro_cache', tuple(out))
+        except Exception:
+            pass
         return out
 
     def resolve(self, name: str) -> Optional[FunctionInfo]:
